@@ -27,3 +27,32 @@ Theorem C19_terminal_grammar : forall (S : SR) (m : wfsa S) (s0 : nat) (nt : nat
   W (to_cfg_right s0 nt m) (Datatypes.S (Datatypes.S f)) s0 xs = pathsum_e m f xs.
 Proof. intros; apply to_cfg_right_start; assumption. Qed.
 Print Assumptions C19_terminal_grammar.
+
+(* The assembly of _char_cfg as a substitution: the token-level grammar Gtop (its terminals are token
+   names), every token t replaced by the start symbol st t of its component grammar, plus the component
+   grammars Gcomp, names chosen apart.  If g solves the components (no token matches the empty string)
+   and f solves Gtop over token strings, then the valuation
+      Z |-> sum over token strings tau of f Z tau * (weight of segmenting xs into matches of tau)
+   solves the assembled grammar: the assembled grammar has the substitution semantics, for every
+   commutative semiring and also for cyclic grammars. *)
+From GV.proofs Require FoldProofs SubstProofs ProductProofs.
+Theorem C19_substitution_semantics : forall (S : SR) (Gtop Gcomp : grammar S) (st : nat -> nat) (toks : list nat)
+    (g f : nat -> list nat -> S),
+  NoDup toks ->
+  (forall r rc, In r Gtop -> In rc Gcomp -> rhead rc <> rhead r) ->
+  (forall r rc Y, In r Gtop -> In (N Y) (rbody r) -> In rc Gcomp -> rhead rc <> Y) ->
+  (forall r t, In r Gtop -> In t toks -> rhead r <> st t) ->
+  (forall r t, In r Gtop -> In (T t) (rbody r) -> In t toks) ->
+  (forall r rc Y, In r Gtop -> In rc Gcomp -> In (N Y) (rbody rc) -> rhead r <> Y) ->
+  FoldProofs.solves S Gcomp g -> FoldProofs.solves S Gtop f ->
+  (forall t, In t toks -> g (st t) [] = s0) ->
+  FoldProofs.solves S (SubstProofs.assembled S Gtop Gcomp st) (SubstProofs.Fsub S Gcomp st toks g f) /\
+  (forall Z xs, (exists r, In r Gtop /\ rhead r = Z) ->
+     SubstProofs.Fsub S Gcomp st toks g f Z xs =
+     bsum (ProductProofs.words_le toks (length xs)) (fun tau => smul (f Z tau) (SubstProofs.seg S (SubstProofs.Ltok S st g) tau xs))).
+Proof.
+  intros S Gtop Gcomp st toks g f Hnd H1a H1b H2 H3 H6 Hg Hf H5. split.
+  - exact (SubstProofs.subst_solves S Gtop Gcomp st toks g f Hnd H1a H1b H2 H3 H6 Hg Hf H5).
+  - intros Z xs HZ. exact (SubstProofs.subst_top_value S Gtop Gcomp st toks g f H1a Z xs HZ).
+Qed.
+Print Assumptions C19_substitution_semantics.
